@@ -1,6 +1,7 @@
 import Driver.SafePtr
 import Driver.Sched
 import Driver.Guard
+import Driver.PtrCell
 import Driver.Dict
 
 def main (args : List String) : IO UInt32 := do
@@ -8,5 +9,6 @@ def main (args : List String) : IO UInt32 := do
   | ["safeptr"] => Driver.SafePtr.main; return 0
   | ["sched"] => Driver.Sched.main; return 0
   | ["guard"] => Driver.Guard.main; return 0
+  | ["ptrcell"] => Driver.PtrCell.main; return 0
   | ["dict"] => Driver.Dict.main; return 0
   | _ => IO.eprintln "usage: driver <area>"; return 2
